@@ -241,18 +241,19 @@ C_BodyName(c, o) == c.method # "HEAD" => Contains(o.body, CodeText(c) \o <<SP>> 
 \* Line by line, because what a line break becomes is not documented.
 C_DescriptionShown(c, o) == c.method # "HEAD" =>
   LET ls == LinesOf(DescText(c)) IN \A k \in 1..Len(ls) : Contains(o.body, IF IsMarkup(c) THEN ls[k] ELSE Escape(ls[k]))
-C_DescriptionEscaped(c, o) == (c.method # "HEAD" /\ ~IsMarkup(c)) =>
+C_DescriptionEscaped(c, o, good) == (c.method # "HEAD" /\ ~IsMarkup(c)) =>
   LET ls == LinesOf(DescText(c)) IN
-  \A k \in 1..Len(ls) : (NeedsEscape(ls[k]) /\ Contains(o.body, ls[k])) => Contains(GoodBody(c), ls[k])
+  \A k \in 1..Len(ls) : (NeedsEscape(ls[k]) /\ Contains(o.body, ls[k])) => Contains(good, ls[k])
 \* BadRequestKeyError.show_exception = False: "This should be disabled in production"; CHANGES 0.15.5 "adds the KeyError
 \* message to the description if e.show_exception is set to True.  This is a more secure default"
-C_KeyHidden(c, o) == (c.method # "HEAD" /\ c.arg.k = "k_key" /\ ~c.arg.show /\ Len(c.arg.key) >= 3) =>
-  (Contains(o.body, Escape(c.arg.key)) => Contains(GoodBody(c), Escape(c.arg.key)))
+C_KeyHidden(c, o, good) == (c.method # "HEAD" /\ c.arg.k = "k_key" /\ ~c.arg.show /\ Len(c.arg.key) >= 3) =>
+  (Contains(o.body, Escape(c.arg.key)) => Contains(good, Escape(c.arg.key)))
 \* PEP 3333: "Application objects must be able to be invoked more than once"; the module docstring: "those exceptions are
 \* callable WSGI applications" -- rendering twice gives the same response
 C_Pure(c, o) == o.sig2 = o.sig
 
-RenderClause(c, o) ==
+\* `good` = GoodBody(c), handed in so that it is built once per case
+RenderClauseG(c, o, good) ==
   IF ~Known(c.cls) THEN "ok"
   ELSE IF o.exc # "" THEN (IF Dirty(c) /\ o.exc = "ValueError" THEN "ok" ELSE "Raised")
   ELSE IF \E k \in 1..Len(o.headers) : HasCRLF(o.headers[k].v) \/ HasCRLF(o.headers[k].n) THEN "HeaderInjection"
@@ -276,10 +277,11 @@ RenderClause(c, o) ==
   ELSE IF ~C_Doctype(c, o) THEN "Doctype"
   ELSE IF ~C_BodyName(c, o) THEN "BodyName"
   ELSE IF ~C_DescriptionShown(c, o) THEN (IF c.arg.k = "k_key" /\ c.arg.show THEN "KeyErrorShown" ELSE "DescriptionShown")
-  ELSE IF ~C_DescriptionEscaped(c, o) THEN "DescriptionEscaped"
-  ELSE IF ~C_KeyHidden(c, o) THEN "KeyErrorHidden"
+  ELSE IF ~C_DescriptionEscaped(c, o, good) THEN "DescriptionEscaped"
+  ELSE IF ~C_KeyHidden(c, o, good) THEN "KeyErrorHidden"
   ELSE IF ~C_Pure(c, o) THEN "Pure"
   ELSE "ok"
+RenderClause(c, o) == RenderClauseG(c, o, IF Known(c.cls) /\ c.resp = 0 /\ c.method # "HEAD" THEN GoodBody(c) ELSE <<>>)
 
 \* ---- 2d. redirects -----------------------------------------------------------------------------------------------
 \* redirect(): "Supported codes are 301, 302, 303, 305, 307, and 308."
@@ -360,12 +362,12 @@ RedirectClause(c, o) ==
       dirty == IF slash THEN FALSE ELSE LocDirty(c.loc)
       locs == ValuesOf(o.headers, H_LOC)
   IN
-  IF o.exc # "" THEN (IF dirty /\ o.exc = "ValueError" THEN "ok" ELSE IF slash THEN "SlashAppended:" \o TailClass(TailOf(c.env.path)) \o ":raised" ELSE "Raised")
+  IF o.exc # "" THEN (IF dirty /\ o.exc = "ValueError" THEN "ok" ELSE IF ~slash /\ ~LocDomain(c.loc) THEN "ok" ELSE IF slash THEN "SlashAppended:" \o TailClass(TailOf(c.env.path)) \o ":raised" ELSE "Raised")
   ELSE IF \E k \in 1..Len(o.headers) : HasCRLF(o.headers[k].v) \/ HasCRLF(o.headers[k].n) THEN "HeaderInjection"
-  ELSE IF dirty THEN "ok"
+  ELSE IF dirty \/ c.code \notin RedirCodes THEN "ok"
   \* RequestRedirect: "Raise if the map requests a redirect"; CHANGES 0.15: "Change RequestRedirect code from 301 to 308";
   \* append_slash_redirect 2.1: "The default status code is 308 instead of 301."; redirect: ":param code: ... defaults to 302."
-  ELSE IF c.code \in RedirCodes /\ ~IsPrefixOf(Dec(c.code) \o <<SP>>, o.status) THEN "RedirectStatus"
+  ELSE IF ~IsPrefixOf(Dec(c.code) \o <<SP>>, o.status) THEN "RedirectStatus"
   ELSE IF ~C_ContentType(o) THEN "ContentType"
   ELSE IF Len(locs) # 1 THEN "Location"
   ELSE IF ~slash /\ LocDomain(c.loc) /\ locs[1] # LocUri(c.loc) THEN "Location"
@@ -428,18 +430,20 @@ ModelBody(c) == T_HEAD \o T_TITLE \o CodeText(c) \o <<SP>> \o ModelName(c) \o T_
                 \o (IF Variant = "key_always_shown" /\ c.arg.k = "k_key" /\ ~c.arg.show
                     THEN EscapeBr(BaseDesc(c) \o T_KEYERROR \o c.arg.key) ELSE ModelDesc(c)) \o T_P_END
 Finalise(status, ctype, extra, body, method, tail) ==
-  LET n == Len(Utf8Enc(body))
+  LET n == Utf8Len(body)
       sent == IF method = "HEAD" /\ Variant # "head_body" THEN <<>> ELSE body
   IN [exc |-> "", status |-> status, headers |-> <<H(H_CT, ctype)>> \o extra \o <<H(H_CL, Dec(n))>> \o tail,
-      body |-> sent, blen |-> Len(Utf8Enc(sent)), glen |-> n, utf8 |-> TRUE, same |-> FALSE,
+      body |-> sent, blen |-> IF sent = <<>> THEN 0 ELSE n, glen |-> n, utf8 |-> TRUE, same |-> FALSE,
       sig |-> "a", sig2 |-> IF Variant = "impure" THEN "b" ELSE "a", twin |-> "", isrcls |-> TRUE]
-RenderModel(c) ==
+\* `page` = ModelBody(c), handed in so that the judge can build the page once (there Variant = "fixed": ModelBody = GoodBody)
+RenderModelB(c, page) ==
   IF c.resp # 0 /\ Variant # "response_ignored"
   THEN [exc |-> "", status |-> <<>>, headers |-> <<>>, body |-> <<>>, blen |-> 0, glen |-> 0, utf8 |-> TRUE, same |-> TRUE,
         sig |-> "r", sig2 |-> "r", twin |-> "r", isrcls |-> TRUE]
   ELSE IF Dirty(c) THEN [Finalise(<<>>, <<>>, <<>>, <<>>, c.method, <<>>) EXCEPT !.exc = "ValueError"]
   ELSE Finalise(IF CodeOf(c.cls) = 0 THEN S_OK200 ELSE Dec(CodeOf(c.cls)) \o <<SP>> \o UpperT(c.name),
-                IF Variant = "no_charset" THEN V_TEXTHTML ELSE V_HTML, ExtraHeaders(c), ModelBody(c), c.method, <<>>)
+                IF Variant = "no_charset" THEN V_TEXTHTML ELSE V_HTML, ExtraHeaders(c), page, c.method, <<>>)
+RenderModel(c) == RenderModelB(c, IF c.resp # 0 \/ Dirty(c) THEN <<>> ELSE ModelBody(c))
 
 \* ---- redirect / RequestRedirect.get_response / append_slash_redirect
 \* urlsplit + quote + urlunsplit on a reference without authority
